@@ -270,3 +270,115 @@ package keeper
 //@        && bal == mintLegs(depositLegs(feeLegs(old(bal), sender, macc(k.feeCollectorName), PARAMS.PoolCreationFee.Denom, PARAMS.PoolCreationFee.Amount, taxOf(PARAMS)),
 //@                                       sender, poolAddrOf(get(pools, pid)), std, dS, tok, msg.MaxToken.Amount), sender, get(pools, pid).LptDenom, dS)
 //@ end
+
+//@ func Keeper.removeLiquidity
+//@   property C02
+//@   returns coins, err
+//@   requires deductUniCoin.Amount >= 0 && irisWithdrawCoin.Amount >= 0 && tokenWithdrawCoin.Amount >= 0
+//@   modifies bal, supply
+//@   ensures ledger: err == nil ==> bal == depositLegs(burnLegs(old(bal), sender, deductUniCoin.Denom, deductUniCoin.Amount),
+//@                       poolAddr, sender, irisWithdrawCoin.Denom, irisWithdrawCoin.Amount, tokenWithdrawCoin.Denom, tokenWithdrawCoin.Amount)
+//@   ensures burned: err == nil ==> supply == addcoin(old(supply), deductUniCoin.Denom, 0 - deductUniCoin.Amount)
+//@   ensures funded: err == nil ==> old(bal(sender, deductUniCoin.Denom)) >= deductUniCoin.Amount
+//@ end
+
+//@ func Keeper.RemoveLiquidity
+//@   property C01, C02
+//@   returns coins, err
+//@   requires msg.WithdrawLiquidity.Amount > 0 && msg.MinToken >= 0 && msg.MinStandardAmt >= 0
+//@   let std = STD
+//@   let lpt = msg.WithdrawLiquidity.Denom
+//@   let w = msg.WithdrawLiquidity.Amount
+//@   let pool = get(pools, ite(has(lptIndex, lpt), get(lptIndex, lpt), ""))
+//@   let tok = pool.CounterpartyDenom
+//@   requires has(lptIndex, lpt) && has(pools, get(lptIndex, lpt)) ==> poolWF(pool, tok) && pool.LptDenom == lpt
+//@   let sender = addr(msg.Sender)
+//@   let pa = poolAddrOf(pool)
+//@   let S = bal(pa, std)
+//@   let T = bal(pa, tok)
+//@   let L = supply(lpt)
+//@   modifies bal, supply
+//@   ensures @C02 found:  err == nil ==> has(lptIndex, lpt) && has(pools, get(lptIndex, lpt)) && L >= w
+//@   ensures @C02 minima: err == nil ==> (w*S) div L >= msg.MinStandardAmt && (w*T) div L >= msg.MinToken
+//@   ensures @C02 ledger: err == nil ==> bal == depositLegs(burnLegs(old(bal), sender, lpt, w), pa, sender, std, (w*S) div L, tok, (w*T) div L)
+//@   ensures @C02 burned: err == nil ==> supply == addcoin(old(supply), lpt, 0 - w)
+//@   ensures @C01 share:  err == nil && sender != pa && MOD != pa && S >= 0 && T >= 0 ==>
+//@           bal(pa, std) * bal(pa, tok) * L * L >= S * T * supply(lpt) * supply(lpt)
+//@ end
+
+//@ func Keeper.addUnilateralLiquidity
+//@   property C02
+//@   returns minted, err
+//@   requires exactToken.Amount >= 0 && mintLptAmt >= 0
+//@   modifies bal, supply
+//@   ensures ledger: err == nil ==> bal == mintLegs(credit(debit(old(bal), sender, exactToken.Denom, exactToken.Amount), poolAddr, exactToken.Denom, exactToken.Amount),
+//@                                                sender, lptDenom, mintLptAmt)
+//@   ensures minted: err == nil ==> supply == addcoin(old(supply), lptDenom, mintLptAmt) && minted == coin(lptDenom, mintLptAmt)
+//@ end
+
+//@ func Keeper.AddUnilateralLiquidity
+//@   property C01, C02
+//@   returns minted, err
+//@   requires paramsStored
+//@   requires msg.ExactToken.Amount > 0 && msg.MinLiquidity >= 0
+//@   let std = STD
+//@   let cd = msg.CounterpartyDenom
+//@   let pid = types.GetPoolId(cd)
+//@   let pool = get(pools, pid)
+//@   requires has(pools, pid) ==> poolWF(pool, cd)
+//@   let sender = addr(msg.Sender)
+//@   let pa = poolAddrOf(pool)
+//@   let lpt = pool.LptDenom
+//@   let xd = msg.ExactToken.Denom
+//@   let od = ite(xd == std, cd, std)
+//@   let X = bal(pa, xd)
+//@   let Y = bal(pa, od)
+//@   let L = supply(lpt)
+//@   let x = msg.ExactToken.Amount
+//@   modifies bal, supply
+//@   ensures @C02 found:  err == nil ==> has(pools, pid) && (xd == cd || xd == std)
+//@   ensures @C02 min_liquidity: err == nil ==> minted.Amount >= msg.MinLiquidity && minted.Denom == lpt
+//@   ensures @C02 ledger: err == nil ==> bal == mintLegs(credit(debit(old(bal), sender, xd, x), pa, xd, x), sender, lpt, minted.Amount)
+//@   ensures @C02 minted: err == nil ==> supply == addcoin(old(supply), lpt, minted.Amount)
+//@   ensures @C01 share:  err == nil && sender != pa && MOD != pa && X > 0 && Y >= 0 && L > 0 ==>
+//@           bal(pa, xd) * bal(pa, od) * L * L >= X * Y * supply(lpt) * supply(lpt)
+//@ end
+
+//@ func Keeper.removeUnilateralLiquidity
+//@   property C02
+//@   returns coins, err
+//@   requires exactLiquidity >= 0 && targetTokenAmtAfterFee >= 0
+//@   modifies bal, supply
+//@   ensures ledger: err == nil ==> bal == credit(debit(burnLegs(old(bal), sender, lptDenom, exactLiquidity), poolAddr, targetTokenDenom, targetTokenAmtAfterFee),
+//@                                              sender, targetTokenDenom, targetTokenAmtAfterFee)
+//@   ensures burned: err == nil ==> supply == addcoin(old(supply), lptDenom, 0 - exactLiquidity)
+//@ end
+
+//@ func Keeper.RemoveUnilateralLiquidity
+//@   property C01, C02
+//@   returns coins, err
+//@   requires paramsStored
+//@   requires msg.ExactLiquidity > 0 && msg.MinToken.Amount >= 0
+//@   let std = STD
+//@   let cd = msg.CounterpartyDenom
+//@   let pid = types.GetPoolId(cd)
+//@   let pool = get(pools, pid)
+//@   requires has(pools, pid) ==> poolWF(pool, cd)
+//@   let sender = addr(msg.Sender)
+//@   let pa = poolAddrOf(pool)
+//@   let lpt = pool.LptDenom
+//@   let xd = msg.MinToken.Denom
+//@   let od = ite(xd == std, cd, std)
+//@   let X = bal(pa, xd)
+//@   let Y = bal(pa, od)
+//@   let L = supply(lpt)
+//@   let w = msg.ExactLiquidity
+//@   let out = ((2*L - w) * w * X * (DEC_ONE - raw(PARAMS.UnilateralLiquidityFee))) div (L * L * DEC_ONE)
+//@   modifies bal, supply
+//@   ensures @C02 found:  err == nil ==> has(pools, pid) && (xd == cd || xd == std) && w < L
+//@   ensures @C02 minimum: err == nil ==> out >= msg.MinToken.Amount
+//@   ensures @C02 ledger: err == nil ==> bal == credit(debit(burnLegs(old(bal), sender, lpt, w), pa, xd, out), sender, xd, out)
+//@   ensures @C02 burned: err == nil ==> supply == addcoin(old(supply), lpt, 0 - w)
+//@   ensures @C01 share:  err == nil && sender != pa && MOD != pa && X >= 0 && Y >= 0 ==>
+//@           bal(pa, xd) * bal(pa, od) * L * L >= X * Y * supply(lpt) * supply(lpt)
+//@ end
